@@ -342,6 +342,56 @@ func runC05(c *Ctx) {
 			rep.Eval("keylen-after-related-valid-key")
 		}
 	}
+	// an error return must leave nothing behind: valid key K1, then a REFUSED key that contains another key K2 (K2 plus a
+	// tail, or a prefix of K2), then K2 itself (and the mix a half-written buffer would hold) — the cipher built last must
+	// be the cipher of the key it was given
+	{
+		rk := c.Rng("refused-then-valid")
+		blockIn := rk.Bytes(16)
+		for trial := 0; trial < c.Q(40, 2000); trial++ {
+			K1, K2 := rk.Bytes(16), rk.Bytes(16)
+			n := []int{17, 18, 24, 32, 64, 15, 8, 1, 0}[trial%9]
+			var refused []byte
+			if n > 16 {
+				refused = append(append([]byte{}, K2...), rk.Bytes(n-16)...)
+			} else {
+				refused = append([]byte{}, K2[:n]...)
+			}
+			mixed := append(append([]byte{}, K2[:minInt(n, 16)]...), K1[minInt(n, 16):]...)
+			w := map[string]interface{}{"K1": mon.Hex(K1), "refused": mon.Hex(refused), "K2": mon.Hex(K2)}
+			bad := false
+			if pi := mon.Guard(func() {
+				if _, err := sm4.NewCipher(K1); err != nil {
+					bad = true
+				}
+				if _, err := sm4.NewCipher(refused); err == nil {
+					bad = true
+				}
+			}); pi != nil || bad {
+				rep.Violation("C05/NewCipher/wrong-answer-on-key-length", fmt.Sprint(pi, " K1 refused or wrong-length key accepted"), w)
+				continue
+			}
+			for _, k := range [][]byte{K2, mixed, K1} {
+				var got []byte
+				var err error
+				if pi := mon.Guard(func() {
+					var b cipher.Block
+					if b, err = sm4.NewCipher(k); err == nil {
+						got = make([]byte, 16)
+						b.Encrypt(got, blockIn)
+					}
+				}); pi != nil || err != nil {
+					rep.Violation("C05/NewCipher/fails-after-a-refused-key", fmt.Sprint(pi, err), w)
+					break
+				}
+				if want := ref.SM4EncryptBlock(k, blockIn, nil); !bytes.Equal(got, want) {
+					rep.Violation("C05/NewCipher/cipher-built-after-a-refused-key-is-not-the-cipher-of-its-key", fmt.Sprintf("key %x: got %x want %x (a key of %d bytes was refused just before)", k, got, want, len(refused)), w)
+					break
+				}
+			}
+			rep.Eval(fmt.Sprintf("refused-then-valid/refused-len=%d", n))
+		}
+	}
 	// wrong-length keys whose CONTENT is special: a textual encoding of a valid key (hex, base64, with prefix, separators
 	// or a terminator), printable text of every length, all-equal bytes. Length validation is about the byte count only.
 	{
